@@ -576,7 +576,7 @@ func c09Set(e Ev, st *c09State) {
 			d.SetUPIDType(scte35.SegUPIDType(GI(arg)))
 			e["got"] = int(d.UPIDType())
 		case "seg.upid":
-			d.SetUPID(GB(arg))
+			d.SetUPID(nilIfEmpty(e, GB(arg)))
 			e["got"] = B(d.UPID())
 		case "seg.segnum":
 			d.SetSegmentNumber(uint8(GI(arg)))
